@@ -772,6 +772,83 @@ def gen_tovalue(lines):
 
 GENERATORS.append(("ToValue", gen_tovalue))
 
+# ------------------------------------------------------------------ value/de.rs routing (C16)
+def gen_fromvalue(lines):
+    """the routing of `impl Deserializer for Value` / `for &'de Value`, the variant accesses, the enum entry
+    points of Map / &Map and MapKeyDeserializer: per method either the method it delegates to, or the
+    `Value::K => callee` arms of its match (in source order, `_`/binding arms as `_`), or the macro that
+    defines it; plus the forward_to_deserialize_any lists and the numeric-key guard.  The transcription
+    in SJ/Model/FromValue.lean was written against exactly this table (`Model.FromValue.expectedRouting`)."""
+    t = strip_rust_comments(src("value/de.rs"))
+
+    def methods(block, key):
+        out = []
+        if block is None:
+            miss(key, "impl block not found"); return out
+        inner = block[1:-1]
+        # macro-defined methods
+        for m in re.finditer(r"\b(deserialize_number|deserialize_value_ref_number|deserialize_numeric_key)!\(\s*(\w+)\s*(?:,\s*(\w+)\s*)?\)\s*;", inner):
+            out.append((m.start(), m.group(2), "!" + m.group(1) + ("(" + m.group(3) + ")" if m.group(3) else "")))
+        for m in re.finditer(r"\bfn\s+(\w+)\s*(?:<[^{;]*?>)?\s*\(", inner):
+            name = m.group(1)
+            body = fn_body(inner[m.start():], r"fn\s+%s\b[^{]*\{" % name)
+            if body is None: continue
+            flat = re.sub(r"\s+", " ", body)
+            d = re.fullmatch(r"\{ self\.(\w+)\(visitor\) \}", flat)
+            if d:
+                out.append((m.start(), name, "->" + d.group(1))); continue
+            if re.search(r"\bmatch\b", flat):
+                arms = []
+                for a in re.finditer(r"(?:Some\()?(Value::(\w+)|\b_\b|\bother\b|\bNone\b|Some\(value\)|Some\(other\))(?:\([^)]*\))?\)?\s*=>\s*\{?\s*(?:if\s+[\w.()]+\s*\{\s*)?(?:return\s+)?(Err|Ok|[\w.:]+?)\(", flat):
+                    pat = a.group(2) or {"_": "_", "other": "_", "None": "None", "Some(value)": "Some", "Some(other)": "_"}[a.group(1)]
+                    if a.group(0).startswith("Some(Value::"): pat = "Some" + pat
+                    arms.append(pat + "=>" + a.group(3))
+                for e in re.finditer(r"\}\s*else\s*\{\s*([\w.:]+)\(", flat): arms.append("else=>" + e.group(1))
+                if re.search(r"if iter\.next\(\)\.is_some\(\) \{ return Err\(", flat): arms.append("second=>Err")
+                out.append((m.start(), name, ";".join(arms))); continue
+            last = [x.strip() for x in flat.strip("{} ").split(";") if x.strip()]
+            out.append((m.start(), name, last[-1] if last else ""))
+        out.sort()
+        return [(n, v) for _, n, v in out]
+
+    def forwards(block):
+        m = re.search(r"forward_to_deserialize_any!\s*\{([^}]*)\}", block or "")
+        return " ".join(m.group(1).split()) if m else ""
+
+    blocks = [
+        ("routeOwned", r"impl<'de>\s+serde::Deserializer<'de>\s+for\s+Value\s*\{"),
+        ("routeRef", r"impl<'de>\s+serde::Deserializer<'de>\s+for\s+&'de\s+Value\s*\{"),
+        ("routeMapOwned", r"impl<'de>\s+serde::Deserializer<'de>\s+for\s+Map<String,\s*Value>\s*\{"),
+        ("routeMapRef", r"impl<'de>\s+serde::Deserializer<'de>\s+for\s+&'de\s+Map<String,\s*Value>\s*\{"),
+        ("routeVariantOwned", r"impl<'de>\s+VariantAccess<'de>\s+for\s+VariantDeserializer\s*\{"),
+        ("routeVariantRef", r"impl<'de>\s+VariantAccess<'de>\s+for\s+VariantRefDeserializer<'de>\s*\{"),
+        ("routeMapKey", r"impl<'de>\s+serde::Deserializer<'de>\s+for\s+MapKeyDeserializer<'de>\s*\{"),
+    ]
+    for name, hdr in blocks:
+        block = fn_body(t, hdr)
+        ms = methods(block, "fromvalue." + name)
+        if block is not None and not ms: miss("fromvalue." + name, "no methods recognised")
+        lines.append("/-- methods of `%s`, in source order: (method, route) -/" % hdr.replace("\\s+", " ").replace("\\s*", "").replace("\\", ""))
+        lines.append("def %s : List (String × String) := [%s]" % (name, ", ".join('("%s", "%s")' % (n, v.replace('"', "'")) for n, v in ms)))
+        lines.append("def %sForward : String := \"%s\"" % (name, forwards(block)))
+    # visit_array / visit_array_ref: the leftover check
+    for fn, nm in (("visit_array", "visitArrayCheck"), ("visit_array_ref", "visitArrayRefCheck")):
+        body = fn_body(t, r"fn %s<'de, V>\([^{]*\{" % fn)
+        flat = re.sub(r"\s+", " ", body or "")
+        m = re.search(r"let remaining = deserializer\.iter\.len\(\); if (remaining == 0) \{ Ok\(seq\) \} else \{ Err\(", flat)
+        if not m: miss("fromvalue." + fn, "`let remaining = deserializer.iter.len(); if remaining == 0 { Ok(seq) } else { Err(..) }` not found")
+        lines.append("def %s : String := \"%s\"" % (nm, m.group(1) if m else ""))
+    # numeric keys: accepted first bytes
+    mac = re.search(r"macro_rules!\s+deserialize_numeric_key\s*\{.*?\n\}", t, re.S)
+    g = re.search(r"match tri!\(de\.peek\(\)\) \{\s*Some\(([^)]*)\) => \{\}", mac.group(0) if mac else "")
+    if not g: miss("fromvalue.numeric_key_guard", "`match tri!(de.peek()) { Some(b'0'..=b'9' | b'-') => {}` not found")
+    lines.append("def numericKeyGuard : String := \"%s\"" % (g.group(1).replace('"', "'") if g else ""))
+    tail = re.search(r"if tri!\(de\.peek\(\)\)\.is_some\(\) \{\s*return Err", mac.group(0) if mac else "")
+    if not tail: miss("fromvalue.numeric_key_tail", "trailing-characters check of deserialize_numeric_key! not found")
+
+
+GENERATORS.append(("FromValue", gen_fromvalue))
+
 
 def main():
     os.makedirs(OUT, exist_ok=True)
